@@ -64,7 +64,12 @@ func transformSyntacticError(err error) error {
 		if serr.Err == io.ErrUnexpectedEOF {
 			serr.Err = errUnexpectedEnd
 		}
-		msg := serr.Err.Error()
+		// The error may come from user code (e.g., an UnmarshalJSON method)
+		// and need not have been produced by this package.
+		msg := "syntactic error"
+		if serr.Err != nil {
+			msg = serr.Err.Error()
+		}
 		if i := strings.Index(msg, " (expecting"); i >= 0 && !strings.Contains(msg, " in literal") {
 			msg = msg[:i]
 		}
